@@ -72,11 +72,12 @@ def ty_simple(t):
 
 
 class Scope:
-    __slots__ = ("vars", "parent")
+    __slots__ = ("vars", "parent", "types")
 
     def __init__(self, parent=None):
         self.vars = {}
         self.parent = parent
+        self.types = {}
 
     def find(self, name):
         s = self
@@ -644,6 +645,8 @@ class Interp:
                 sc.vars[n] = None
             return
         v = self.ev(init["expr"], sc, cx, hint=hint)
+        if hint is not None and pat["_"] == "Pat::Ident":
+            sc.types[ident(pat["ident"])] = hint
         div = unsome(init.get("diverge"))
         c = self.bind(pat, v, sc, cx)
         if div is not None:
